@@ -119,8 +119,11 @@ def build_loss(rec, derivative_keys=None):
     else:
         u = make_pinn(rec["V"], eq_type, output_transform=ot, slice_solution=jnp.s_[lo - 1:hi])
     pshape = (1,) if rec.get("pshape") == "one" else ()
+    kv = list(zip(pkeys, rec["th"]))
+    if rec.get("pkrev"):
+        kv = kv[::-1]             # the user's eq_params dictionary written in another key order than the batch dictionaries
     params = jinns.parameters.Params(nn_params=u.init_params(),
-                                     eq_params={k: jnp.full(pshape, float(v)) for k, v in zip(pkeys, rec["th"])})
+                                     eq_params={k: jnp.full(pshape, float(v)) for k, v in kv})
     R = rec["R"]
 
     def resid(inputs, uval, p):
@@ -255,7 +258,15 @@ def run_loss(rec):
     zero = dict(n=0, d=1, ok=True)
     try:
         loss, params, batch = build_loss(rec)
-        total, terms = loss.evaluate(params, batch) if rec.get("call", "evaluate") == "evaluate" else loss(params, batch)
+        if rec.get("call") == "reweighted":
+            import copy
+
+            import equinox as eqx
+            rec0 = copy.deepcopy(rec)
+            rec0["w"]["dyn"] = [0]
+            loss0, _, _ = build_loss(rec0)
+            loss = eqx.tree_at(lambda l: l.loss_weights, loss0, loss.loss_weights)
+        total, terms = loss(params, batch) if rec.get("call", "evaluate") == "call" else loss.evaluate(params, batch)
     except Exception as ex:  # noqa
         out["obs"] = dict(total=zero, **{k: zero for k in NAMES})
         out["exc"] = f"{type(ex).__name__}: {str(ex)[:200]}"
@@ -588,11 +599,13 @@ def _grad_problem(lkind, seed, pbatch=False):
     r["R"] = [[dict(c=1, e=e_u), dict(c=2, e=e_k1), dict(c=1, e=e_k2x)]]
     r["th"] = [2, 3]
     lossrec.set_inside(r, rng, 2)
+    obsk = pbatch == "obsk"
     if pbatch:
-        # metamodelling: a THIRD equation parameter k3 arrives with the batch (one row per point); it enters the residual only and is not
-        # one of the groups the masks range over.  Every term is then evaluated through its vmapped-parameters path.
+        # metamodelling: a THIRD equation parameter k3 arrives with the batch (one row per point) - or, `obsk`, with the OBSERVATIONS (one
+        # observed value per observation row); it enters the residual only and is not one of the groups the masks range over.
+        # Every term is then evaluated through its vmapped-parameters path (`obsk`: the observation term only).
         r["th"] = [2, 3, 5]
-        r["ptab"] = [[], [], [rng.choice([1, 2]), rng.choice([3, 4])]]
+        r["ptab"] = [[], [], [] if obsk else [rng.choice([1, 2]), rng.choice([3, 4])]]
         r["het"] = [[], [], []]
         r["obsd"]["etab"] = [[], [], []]
         e_k3 = [0] * (nv + 1)
@@ -609,6 +622,8 @@ def _grad_problem(lkind, seed, pbatch=False):
             r["border"] = [rows + rows for rows in r["border"]]      # as many border rows as parameter rows
         r["bnd"] = [dict(kind="dirichlet", g=[[dict(c=1, e=[0] * nin)]], comp=[1, 1]) for _ in range(2)]
     r["obsd"] = dict(on=True, **{"in": [[1] * nin, [2] + [0] * (nin - 1)]}, val=[[1], [-2]], slice=[1, 1], etab=[[] for _ in r["th"]])
+    if obsk:
+        r["obsd"]["etab"][2] = [4, 7]
     return r
 
 
@@ -631,7 +646,7 @@ def run_gradbatch(task):
     field = dict(dyn_loss="dyn_loss", initial_condition="initial_condition", observations="observations", norm_loss="norm_loss",
                  boundary_loss="boundary_loss")
 
-    pbatch = bool(task.get("pbatch"))
+    pbatch = task.get("pbatch") or False          # False | True (parameter batch) | "obsk" (observed equation parameter)
 
     def mk_mask(m):  # m: [nn, k1, k2] booleans (python or traced)
         return Params(nn_params=m[0], eq_params=dict({"k1": m[1], "k2": m[2]}, **({"k3": True} if pbatch else {})))
@@ -719,7 +734,10 @@ def run_equation(rec):
     try:
         pts = jnp.asarray(np.array(rec["pts"], dtype=np.float64))
         if eq in ("burgers", "fisher", "ou"):
-            u = make_pinn(rec["U"], "nonstatio_PDE")
+            sliced = eq == "burgers" and rec.get("layout") == "sliced"
+            # sliced: a two-output network whose SECOND output is the solution (slice_solution = [1:2]); the documented residual is the
+            # component of the returned vector at the solution's index
+            u = make_pinn([rec["D"]] + rec["U"], "nonstatio_PDE", slice_solution=jnp.s_[1:2]) if sliced else make_pinn(rec["U"], "nonstatio_PDE")
             if eq == "burgers":
                 dl = BurgerEquation(Tmax=T)
                 ep = {"nu": jnp.array(qf(par["nu"]))}
@@ -731,6 +749,8 @@ def run_equation(rec):
                 ep = {k: jnp.array([qf(v) for v in par[k]]) for k in ("alpha", "mu", "sigma")}
             params = jinns.parameters.Params(nn_params=u.init_params(), eq_params=ep)
             vals = jax.vmap(lambda p: jnp.ravel(dl.evaluate(p[:1], p[1:], u, params)))(pts)
+            if sliced:
+                vals = vals[:, 1:2]
         elif eq == "masscons":
             u = make_pinn(rec["U"], "statio_PDE")
             other = make_pinn([rec["U"][1], rec["U"][0]], "statio_PDE")
